@@ -471,7 +471,13 @@ impl RawAutomaton {
         let mut power_transitions = Vec::with_capacity(self.transitions.len());
         let mut final_states =
             FxHashSet::with_capacity_and_hasher(self.final_states.len(), FxBuildHasher);
-        let markers = Vec::from_iter(self.markers.clone());
+        // An automaton without any transition has an empty set of markers. Completing it still
+        // requires adding the (unmarked) letters of the alphabet, hence marker 0 is used.
+        let mut all_markers = self.markers.clone();
+        if completion && all_markers.is_empty() {
+            all_markers.insert(0);
+        }
+        let markers = Vec::from_iter(all_markers.iter().copied());
 
         while let Some(power_state) = pending.pop() {
             if let Entry::Vacant(entry) = visited.entry(power_state.clone()) {
@@ -533,7 +539,7 @@ impl RawAutomaton {
             initial_state: 0,
             final_states,
             transitions,
-            markers: self.markers,
+            markers: all_markers,
         }
     }
 
@@ -681,7 +687,8 @@ impl RawAutomaton {
             // False in general, but true in many practical cases. Will be double checked in the
             // next instruction.
             deterministic: false,
-            complete: automata.iter().all(|a| a.complete),
+            // The concatenation of no automaton at all is `epsilon`, which is not complete.
+            complete: !automata.is_empty() && automata.iter().all(|a| a.complete),
             final_states,
             initial_state,
             markers,
